@@ -32,7 +32,7 @@ COMPONENTS = {
              "delimited_rows/fixed_rows", "csv", "io.TextIOWrapper/BufferedReader"],
     "stub": ["SimFS/SimRaw", "text peer", "stepping client"],
 }
-PROBES_REQUIRED = ["other-data-set-validated-before", "duplicate-right-after-rejected-row-with-same-key", "triple-occurrence", "threshold-hit-exactly",
+PROBES_REQUIRED = ["other-cid-stepped-alternately", "api:validate-with-limit", "other-data-set-validated-before", "duplicate-right-after-rejected-row-with-same-key", "triple-occurrence", "threshold-hit-exactly",
                    "distinctcount-declared-before-isunique", "end-check-fails", "duplicate", "mode:raise", "mode:yield",
                    "mode:continue"]
 
@@ -76,8 +76,13 @@ def generate(seed, tier):
         # reader, in between): its keys and values must not count for this data set
         prelude = {"table": [[rng.choice(alphabet) for _ in range(key_count)] + ["1"] for _ in range(rng.randint(1, 4))],
                    "main_created_first": swarm.random() < 0.5}
-    return {"prelude": prelude, "io": simfs.IoConfig.draw(swarm), "cid": spec, "table": table, "mode": mode,
-            "api": "Reader" if mode == "raise" else swarm.choice(["Reader", "rows"]),
+    other = None
+    if swarm.random() < 0.25:
+        # an independent Cid object (same definition) reading other data, stepped alternately with the main run
+        other = {"table": [[rng.choice(alphabet) for _ in range(key_count)] + ["1"] for _ in range(rng.randint(1, 5))]}
+    return {"other_cid_interleaved": other, "prelude": prelude, "io": simfs.IoConfig.draw(swarm), "cid": spec, "table": table, "mode": mode,
+            "api": swarm.choice(["Reader", "Reader", "validate"]) if mode == "raise" else swarm.choice(["Reader", "rows"]),
+            "limit": swarm.choice([None, None, 0, 1, 2, 3, 5]),
             "source": swarm.choice(["path", "stream"])}
 
 
@@ -92,7 +97,8 @@ def execute(scenario):
     path = tabular.data_path(spec)
     tabular.store(fs, path, spec, table)
     raw_rows = tabular.as_read(spec, table)
-    model = tabular.RefReader(spec, raw_rows)
+    limit = scenario.get("limit") if api == "validate" else None
+    model = tabular.RefReader(spec, raw_rows, until=limit)
     expected = model.items()
     states = []
     with simfs.Seams(fs):
@@ -101,7 +107,7 @@ def execute(scenario):
         prelude = scenario.get("prelude")
         run = None
         if prelude and prelude.get("main_created_first"):
-            run = lib.ReadRun(cid, source, api, mode)
+            run = lib.ReadRun(cid, source, api, mode, until=limit)
         if prelude:
             tabular.store(fs, "prelude" + path, spec, prelude["table"])
             before = lib.ReadRun(cid, "prelude" + path, "Reader", "continue")
@@ -110,8 +116,16 @@ def execute(scenario):
             before.close()
             result.probe("other-data-set-validated-before")
         if run is None:
-            run = lib.ReadRun(cid, source, api, mode)
+            run = lib.ReadRun(cid, source, api, mode, until=limit)
+        other_run = None
+        if scenario.get("other_cid_interleaved"):
+            tabular.store(fs, "other" + path, spec, scenario["other_cid_interleaved"]["table"])
+            other_cid = lib.load_cid(tabular.cid_rows(spec), "other-cid")
+            other_run = lib.ReadRun(other_cid, "other" + path, "Reader", "continue")
+            result.probe("other-cid-stepped-alternately")
         while run.step():
+            if other_run is not None:
+                other_run.step()
             history.add("client", "next", run.items[-1] if run.items and not run.finished else None)
             sizes = []
             for check in cid.check_map.values():
@@ -121,6 +135,10 @@ def execute(scenario):
                         sizes.append(len(mapping))
             states.append([mode, sizes])
         run.close()
+        if other_run is not None:
+            while other_run.step():
+                pass
+            other_run.close()
     outcome = run.outcome()
     history.add("client", "end", {"raised": outcome["raised"], "closed": outcome["closed"], "counters": outcome["counters"]})
 
@@ -160,7 +178,11 @@ def execute(scenario):
     result.digest = history.digest()
     result.trace = {"expected": expected[:8], "actual": outcome["items"][:8], "raised": outcome["raised"],
                     "closed": outcome["closed"]}
-    tabular.verify_run(model, run, mode, api, path, ["mode=" + mode])
+    if api == "validate":
+        result.probe("api:validate-with-limit" if limit is not None else "api:validate")
+        tabular.verify_validate(model, run.raised, limit, path, ["api=validate"])
+    else:
+        tabular.verify_run(model, run, mode, api, path, ["mode=" + mode])
     return result
 
 
@@ -169,6 +191,10 @@ def candidates(scenario):
         yield candidate
     for candidate in lib.drop_candidates(scenario, ["cid", "checks"]):
         yield candidate
+    if scenario.get("other_cid_interleaved"):
+        yield lib.with_value(scenario, ["other_cid_interleaved"], None)
+    if scenario.get("limit") is not None:
+        yield lib.with_value(scenario, ["limit"], None)
     if scenario.get("prelude"):
         yield lib.with_value(scenario, ["prelude"], None)
         for candidate in lib.drop_candidates(scenario, ["prelude", "table"], minimum=1):
